@@ -28,6 +28,7 @@ type c02scen struct {
 	written map[string]bool     // acknowledged writes
 	links   map[string][]string // hash -> next ∪ refs
 	lastH   map[int]string      // last CHoles term recorded per replica (only changes are recorded)
+	late    int                 // replica that was reopened and is loaded only at the very end (-1: none, final() may pick one)
 	track   bool                // scripted history: mirror every step as a step of Model/NetHoles.v
 	hist    []string            // the mirrored steps (Coq terms)
 }
@@ -38,7 +39,7 @@ func newC02Scen(r *Run, si, n int, typ, kind string) (*c02scen, error) {
 		return nil, err
 	}
 	return &c02scen{r: r, s: s, si: si, n: n, typ: typ, kind: kind,
-		written: map[string]bool{}, links: map[string][]string{}, lastH: map[int]string{}}, nil
+		written: map[string]bool{}, links: map[string][]string{}, lastH: map[int]string{}, late: -1}, nil
 }
 
 func (c *c02scen) idx(i int) int { return c.s.Reps[i].Idx }
@@ -300,8 +301,10 @@ func (c *c02scen) final() {
 	// healed and loads its database only AFTER everybody has seen everybody join and all the
 	// traffic has been delivered: the heads it offers to the peers that join are those of its
 	// cache, whatever its log holds at that moment, and no later join repeats the exchange
-	late := -1
-	if c.kind == "random" && c.si%3 == 1 {
+	late := c.late
+	if late >= 0 {
+		c.r.Count("final:late-load(scripted)")
+	} else if c.kind == "random" && c.si%3 == 1 {
 		late = c.r.Rng.Intn(n)
 		c.settle("pre-late-restart")
 		if err := c.reopen(late, false); err != nil {
@@ -406,6 +409,17 @@ func runC02(r *Run) error {
 		}
 		c.s.Close()
 	}
+	// a reopened, not yet loaded replica that has merged a peer's entries when that peer joins again
+	for k := 0; k < 2; k++ {
+		c, err := newC02Scen(r, scens+100+k, 2, []string{"eventlog", "keyvalue"}[k%2], "late-rejoin")
+		if err != nil {
+			return err
+		}
+		if err := c.runLateRejoin(); err != nil {
+			return err
+		}
+		c.s.Close()
+	}
 	// deterministic histories: a replication request that fetches an entry but not one of its
 	// ancestors (the link goes down in between), then restarts of the replica while the
 	// ancestor is still unreachable, then the final phase
@@ -432,6 +446,49 @@ func runC02(r *Run) error {
 			si++
 		}
 	}
+	return nil
+}
+
+// runLateRejoin: two replicas write while the link between them is down; replica 0 is closed
+// and reopened (not loaded: its log is empty, its heads are in its cache); the link comes up,
+// the head exchange that replica 0 sends is lost, the one it receives arrives and is merged -
+// replica 0 now holds the other's entries and none of its own.  The final phase cuts and heals
+// the link once more (a second join, the exchange is repeated), delivers everything and loads
+// replica 0 at the very end: what a store offers to a peer that joins are its persisted heads,
+// whatever part of them its log holds at that moment.
+func (c *c02scen) runLateRejoin() error {
+	net := c.s.Env.Net
+	const L, B = 0, 1
+	net.Cut(c.idx(L), c.idx(B))
+	for k := 0; k < 2+c.r.Rng.Intn(2); k++ {
+		if _, err := c.write(L, k); err != nil {
+			return err
+		}
+		if _, err := c.write(B, 10+k); err != nil {
+			return err
+		}
+	}
+	c.settle("writes")
+	for net.PendingLen() > 0 {
+		net.DropPending(0)
+	}
+	if err := c.reopen(L, false); err != nil {
+		return err
+	}
+	net.Heal(c.idx(L), c.idx(B))
+	c.settle("first-join")
+	dropped := 0
+	for i := net.PendingLen() - 1; i >= 0; i-- {
+		if p := net.PendingSnapshot(); i < len(p) && p[i].From == c.idx(L) {
+			net.DropPending(i)
+			dropped++
+		}
+	}
+	c.drain("first-exchange")
+	c.trace("late rejoin: dropped %d message(s) of the reopened replica; logs %v", dropped, c.lens())
+	c.r.Count("scripted:late-rejoin")
+	c.late = L
+	c.final()
 	return nil
 }
 
